@@ -1400,6 +1400,16 @@ class Macro:
         """
         return -1
 
+    def _which_param(self, tok):
+        """
+        Return the index of the parameter that tok names, or -1. Only an
+        identifier can name a parameter (a character constant 'c' has the
+        same spelling as the identifier c).
+        """
+        if not isinstance(tok, Identifier):
+            return -1
+        return self.which_arg(tok.token)
+
     def preproc_replacement(self):
         """
         Preprocess macroexpansion of ## where it doesn't abut arguments.
@@ -1409,9 +1419,9 @@ class Macro:
 
         while idx < len(self.replacement):
             tok = self.replacement[idx]
-            if tok.token == "##":
+            if isinstance(tok, Operator) and tok.token == "##":
                 last = res_tokens.pop()
-                arg_idx = self.which_arg(last.token)
+                arg_idx = self._which_param(last)
                 if arg_idx != -1:
                     idx += 1
                     res_tokens.append(last)
@@ -1420,7 +1430,7 @@ class Macro:
                     continue
                 idx += 1
                 nexttok = self.replacement[idx]
-                arg_idx = self.which_arg(nexttok.token)
+                arg_idx = self._which_param(nexttok)
                 if arg_idx != -1:
                     idx += 1
                     res_tokens.append(last)
@@ -1435,7 +1445,7 @@ class Macro:
                         f"Invalid concatenation: {lex.string}",
                     )
                 tok.prev_white = last.prev_white
-            elif tok.token == "#":
+            elif isinstance(tok, Operator) and tok.token == "#":
                 if isinstance(self, MacroFunction):
                     self.has_strcat = True
             elif isinstance(tok, Identifier):
@@ -1542,25 +1552,25 @@ class MacroFunction(Macro):
 
             while idx < len(self.replacement):
                 tok = self.replacement[idx]
-                if tok.token == "##":
+                if isinstance(tok, Operator) and tok.token == "##":
                     last = res_tokens.pop()
                     prev_white = last.prev_white
                     if last is placemarker:
                         last = []
                     elif not last_cat:
-                        try:
-                            argidx = self.args.index(last.token)
+                        argidx = self._which_param(last)
+                        if argidx != -1:
                             last = input_args[argidx][0]  # Unexpanded arg
-                        except ValueError:
+                        else:
                             last = [last]
                     else:
                         last = [last]
                     idx += 1
                     nexttok = self.replacement[idx]
-                    try:
-                        argidx = self.args.index(nexttok.token)
+                    argidx = self._which_param(nexttok)
+                    if argidx != -1:
                         nexttok = input_args[argidx][0]  # Unexpanded arg
-                    except ValueError:
+                    else:
                         nexttok = [nexttok]
                     if len(last) > 0 and len(nexttok) == 0:
                         # Pasting with an empty argument leaves the left
@@ -1587,17 +1597,17 @@ class MacroFunction(Macro):
                     else:
                         res_tokens.append(placemarker)
                     last_cat = True
-                elif tok.token == "#":
+                elif isinstance(tok, Operator) and tok.token == "#":
                     idx += 1
                     if idx == len(self.replacement):
                         raise ParseError(
                             "Found # at end of macro replacement!",
                         )
                     nexttok = self.replacement[idx]
-                    try:
-                        argidx = self.args.index(nexttok.token)
+                    argidx = self._which_param(nexttok)
+                    if argidx != -1:
                         tok = input_args[argidx][0]  # Unexpanded arg
-                    except ValueError:
+                    else:
                         raise ParseError(
                             "# was not followed by a macro argument.",
                         )
@@ -1621,6 +1631,8 @@ class MacroFunction(Macro):
             # If a token matches an argument, it is substituted;
             # otherwise it passes through
             try:
+                if not isinstance(token, Identifier):
+                    raise ValueError
                 substitution = input_args[self.args.index(token.token)][1]
                 if len(substitution) > 0:
                     substitution[0] = copy(substitution[0])
@@ -1880,6 +1892,11 @@ class MacroExpander:
 
                     while True:
                         tok = self.consume_tok()
+                        # Only punctuators delimit arguments (the character
+                        # constants ',' '(' ')' have the same spelling).
+                        if not isinstance(tok, Punctuator):
+                            current_arg.append(tok)
+                            continue
                         if tok.token == "," and open_paren_count == 1:
                             args.append(current_arg)
                             current_arg = []
